@@ -1,5 +1,6 @@
 import Zc.Proofs.Name
 import Zc.Proofs.Txt
+import Zc.Proofs.TxtEntry
 /-! # C19 — service names are validated per RFC 6763 and TXT properties round-trip
 
 *Names.*  `Name.serviceTypeName` is the statement-by-statement model of
@@ -11,8 +12,14 @@ hold for **every** string (list of Unicode scalar values) and both modes.
 
 *TXT.*  `Txt.encode` / `Txt.decodeLib` model `ServiceInfo._set_properties` /
 `_unpack_text_into_properties`; `Txt.Spec.parse` is an independent RFC 6763 §6 reader.
-The round-trip theorems hold for **every** dictionary that satisfies RFC 6763 §6.4
-(`WFProps`); outside it the exact behaviour is characterised by the error-branch lemmas. -/
+The whole-dictionary round-trip theorems (`…_partial`) hold for every dictionary without `=` in a key and
+with keys distinct after encoding (`WFProps`; this is *weaker* than RFC 6763 §6.4, which also wants
+non-empty keys, distinct up to ASCII case: that is `WFPropsRfc`, needed for the RFC reader).  Outside
+them: `C19_txt_wire_transparent` (what both readers see, no hypothesis) and `C19_txt_entry_roundtrip`
+(entry by entry: a forbidden entry spoils only its own key and the key it is split into).
+`str`s are Unicode text throughout; a `str` with a lone surrogate is rejected with `UnicodeEncodeError`
+(`C19_txt_unicode_error_iff`, a finding).  `.properties` is compared when the object is built: for an
+all-bytes dictionary it is the caller's own object (`C19_txt_alias`, a reading). -/
 namespace Zc
 open Zc.Name Zc.Name.Spec
 
@@ -357,9 +364,11 @@ theorem C19_txt_roundtrip_partial (ps : Txt.Props) (h : WFPropsRfc ps) :
   rw [h1] at h3; injection h3 with h3; subst h3
   exact ⟨t1, h1, h2, h4⟩
 
-/-- **"(as bytes …)".**  Whatever dictionary of `str`/`bytes` keys and `str`/`bytes`/`None` values is given, what
-`ServiceInfo(properties=d).properties` returns contains no `str`: either a `str` was involved and the decoded text is
-returned, or none was and the caller's dictionary — all bytes — is returned as it is.  No hypothesis on `d`. -/
+/-- **"(as bytes …)".**  Whatever dictionary of `str`/`bytes` keys and `str`/`bytes`/`None` values is *accepted* (the
+hypothesis `setProperties d = .ok …`: every item fits 255 bytes; `str`s are Unicode text, see `C19_txt_unicode_error_iff`),
+what `ServiceInfo(properties=d).properties` returns when the object is built contains no `str`: either a `str` was involved
+and the decoded text is returned, or none was and the caller's dictionary — all bytes — is returned as it is (the very
+object: `C19_txt_alias`).  No hypothesis on the keys. -/
 theorem C19_txt_properties_are_bytes (d : Txt.PyDict) (text : Bytes) (obs : Txt.PyDict)
     (h : Txt.setProperties d = .ok (text, obs)) : Txt.allBytes obs = true := by
   unfold Txt.setProperties at h
@@ -423,7 +432,129 @@ theorem C19_txt_first_key_wins (k : Bytes) (v w : Option Bytes) (d : Txt.Props) 
     · simp [Txt.hasKey]
   rw [Txt.insertNew, if_pos this]
 
+/-! ### entry by entry: what a forbidden entry can and cannot spoil
+
+`WFProps` is a hypothesis on the *whole* dictionary.  The following needs none beyond the item limit: an entry whose own
+key has no `=` is read back — by the library whenever no **earlier** entry's item yields the same key (`effKey`: the part
+of `key[=value]` before the first `=`; for a well-formed entry its key), by the RFC reader whenever its key is non-empty and
+no earlier item yields a key equal to it up to ASCII case — whatever else the dictionary contains (keys with `=`, empty
+keys, colliding keys elsewhere); the decoded keys are distinct and each is the `effKey` of some entry, so nothing else
+appears.  This is the statement behind the harness's per-entry oracle (`entry_classes` in `harness/c19.py`): the four
+known-finding classes cover exactly the entries excluded here, not the dictionaries that contain one. -/
+theorem C19_txt_entry_roundtrip (ps pre post : Txt.Props) (k : Bytes) (v : Option Bytes)
+    (hfit : ∀ e ∈ ps, (Txt.itemOf e).length ≤ 255) (hps : ps = pre ++ (k, v) :: post) (hk : Txt.eqByte ∉ k) :
+    ∃ text, Txt.encode ps = .ok text
+      ∧ ((∀ e ∈ pre, Txt.effKey e ≠ k) → (k, Txt.normVal v) ∈ Txt.decodeLib text)
+      ∧ ((k ≠ [] ∧ ∀ e ∈ pre, ∀ a, Txt.Spec.attr (Txt.itemOf e) = some a → Txt.Spec.foldKey a.1 ≠ Txt.Spec.foldKey k) →
+          ∃ d, Txt.Spec.parse text = some d ∧ (k, v) ∈ d)
+      ∧ ((Txt.decodeLib text).map (·.1)).Nodup
+      ∧ (∀ x ∈ Txt.decodeLib text, ∃ e ∈ ps, Txt.effKey e = x.1)
+      ∧ (∀ d, Txt.Spec.parse text = some d → ∀ x ∈ d, ∃ e ∈ ps, Txt.Spec.attr (Txt.itemOf e) = some x) := by
+  refine ⟨_, encode_wf hfit, ?_, ?_, ?_, ?_, ?_⟩
+  · intro hpre
+    rw [decodeLib_encode_steps hfit, hps]
+    exact entry_in_fold pre post k v hk hpre
+  · rintro ⟨hne, hpre⟩
+    refine ⟨_, parse_encode_general hfit, ?_⟩
+    rw [hps]
+    exact entry_in_parse pre post k v hk hne hpre
+  · rw [decodeLib_encode_steps hfit]
+    exact nodup_foldl_libStep _ [] (by simp)
+  · intro x hx
+    rw [decodeLib_encode_steps hfit] at hx
+    rcases keys_foldl_libStep _ [] x hx with h | ⟨it, hit, he⟩
+    · simp at h
+    · obtain ⟨e, he', rfl⟩ := List.mem_map.1 hit
+      exact ⟨e, he', he⟩
+  · intro d hd x hx
+    rw [parse_encode_general hfit] at hd
+    injection hd with hd
+    subst hd
+    have := firstWins_subset _ _ x hx
+    obtain ⟨it, hit, ha⟩ := List.mem_filterMap.1 this
+    obtain ⟨e, he', rfl⟩ := List.mem_map.1 hit
+    exact ⟨e, he', ha⟩
+
+/-- a well-formed entry's effective key is its key; an entry with `=` in its key yields the part before that `=`
+(`C19_txt_key_with_eq`), which is how it can shadow a later well-formed entry -/
+theorem C19_txt_effKey_wellformed (e : Bytes × Option Bytes) (h : Txt.eqByte ∉ e.1) : Txt.effKey e = e.1 := effKey_clean e h
+
+/-! ### `str` keys / values that are not Unicode text (lone surrogates)
+
+The sentence as worded — *every* dictionary with `str`/`bytes` keys and `str`/`bytes`/`None` values whose items fit is
+encoded — is **false** for a `str` that holds a lone surrogate: it has no UTF-8 form and the constructor raises
+`UnicodeEncodeError` (reproduced: `D33, notes/fixes/D33-repro.py`; recorded as a finding,
+`C19:txt-str-with-lone-surrogate`; the analogous escape for *names* was repaired because the property names the only
+exception allowed there).  Every other TXT theorem of this file is about `Txt.PyDict`, i.e. about dictionaries whose
+`str`s are text; `C19_txt_raw_partial` says that this is the only restriction. -/
+
+/-- the sentence for raw dictionaries: whatever `str`s they hold, a dictionary whose items fit is accepted -/
+def C19_txt_every_dict_accepted : Prop :=
+  ∀ d : Txt.PyDictRaw, (∀ e ∈ Txt.coerce (Txt.textOf d), (Txt.itemOf e).length ≤ 255) → ∃ r, Txt.setPropertiesRaw d = .ok r
+
+/-- `{'\ud800': None}` is rejected with `UnicodeEncodeError` -/
+theorem C19_txt_lone_surrogate_refuted : ¬ C19_txt_every_dict_accepted := by
+  intro h
+  obtain ⟨r, hr⟩ := h [(.surrogateStr, none)] (by decide)
+  simp [Txt.setPropertiesRaw, Txt.Encodable, Txt.entryEncodable, Txt.PyObj.encodable] at hr
+
+/-- `UnicodeEncodeError` is raised exactly for the dictionaries with such a `str` — before anything else, in particular
+before the `ValueError` of an oversize item -/
+theorem C19_txt_unicode_error_iff (d : Txt.PyDictRaw) :
+    Txt.setPropertiesRaw d = .error .unicodeEncodeError ↔ Txt.Encodable d = false := by
+  unfold Txt.setPropertiesRaw
+  cases h : Txt.Encodable d
+  · simp
+  · simp only [if_true]
+    cases Txt.setProperties (Txt.textOf d) <;> simp [Txt.liftPy]
+
+/-- `_partial` (hypothesis = the finding's class, `Encodable`): for every dictionary whose `str`s are Unicode text the
+constructor does what `setProperties` says of the dictionary's text form — the theorems above then apply -/
+theorem C19_txt_raw_partial (d : Txt.PyDictRaw) (h : Txt.Encodable d = true) :
+    Txt.setPropertiesRaw d = Txt.liftPy (Txt.setProperties (Txt.textOf d)) := by
+  simp [Txt.setPropertiesRaw, h]
+
+/-- the hypothesis is satisfiable and not trivial -/
+example : Txt.Encodable [(.val (.str [107]), some (.val (.bytes [118])))] = true
+    ∧ Txt.Encodable [(.val (.str [107]), some .surrogateStr)] = false := by decide
+
+/-! ### a reading: `.properties` of an all-bytes dictionary is the caller's own object
+
+`setProperties` returns the dictionary itself when no `str` is involved (`returnsCallersDict`); the real object is an
+*alias* of the caller's dictionary (the harness compares `info.properties is <given>` with this bit), so a caller who
+mutates the dictionary afterwards sees `.properties` change while `.text` does not.  The property speaks of the dictionary
+*given* to the service description; what later mutation does is outside it and outside the model (value semantics). -/
+theorem C19_txt_alias (d : Txt.PyDict) (text : Bytes) (obs : Txt.PyDict) (h : Txt.setProperties d = .ok (text, obs)) :
+    (Txt.returnsCallersDict d = true → obs = d)
+    ∧ (Txt.returnsCallersDict d = false → obs = Txt.asBytesDict (Txt.decodeLib text)) := by
+  unfold Txt.setProperties at h
+  split at h
+  · cases h
+  · injection h with h
+    injection h with h1 h2
+    subst h1 h2
+    constructor
+    · intro hc
+      have : Txt.containsStr d = false := by simpa [Txt.returnsCallersDict] using hc
+      simp [this]
+    · intro hc
+      have : Txt.containsStr d = true := by simpa [Txt.returnsCallersDict] using hc
+      simp [this]
+
 /-! ### non-vacuity -/
+
+/-- `{'a=b': 'c', 'path': '/x'}`: the forbidden first entry does not stop `path` from being read back by both readers
+(an implementation that gave up on the whole dictionary would falsify `C19_txt_entry_roundtrip`) -/
+example : ([112, 97, 116, 104], some [47, 120]) ∈ Txt.decodeLib [5, 97, 61, 98, 61, 99, 7, 112, 97, 116, 104, 61, 47, 120] := by
+  simp [Txt.decodeLib, decodeLoop_cons, Txt.decodeLoop, Txt.partitionEq, Txt.insertNew, Txt.hasKey, Txt.libVal, Txt.eqByte]
+
+/-- … obtained from the theorem: its hypotheses (item limit, the entry's position, no `=` in its key, no earlier item with
+its key) are met by the second entry of `{'a=b': 'c', 'path': '/x'}` -/
+example : ∃ text, Txt.encode [([97, 61, 98], some [99]), ([112, 97, 116, 104], some [47, 120])] = .ok text
+    ∧ ([112, 97, 116, 104], some [47, 120]) ∈ Txt.decodeLib text := by
+  obtain ⟨text, h1, h2, _⟩ := C19_txt_entry_roundtrip _ [([97, 61, 98], some [99])] [] [112, 97, 116, 104] (some [47, 120])
+    (by decide) rfl (by decide)
+  exact ⟨text, h1, h2 (by decide)⟩
 
 /-- `{'path': '/x', 'flag': None, 'empty': ''}` is well-formed -/
 example : WFPropsRfc [([112, 97, 116, 104], some [47, 120]), ([102], none), ([101], some [])] where
